@@ -19,12 +19,12 @@ class Profile:
     level = "exploration"
     rule = ""
     # quick/thorough run counts (per check), tuned to the wall budgets
-    runs_quick = 2000
-    runs_thorough = 40000
+    runs_quick = 8000
+    runs_thorough = 240000
 
     chunk = 20
-    wall_quick = 50.0
-    wall_thorough = 900.0
+    wall_quick = 75.0
+    wall_thorough = 1500.0
     components = {
         "real": ["gtirb (built from /repo working tree)", "protobuf runtime (upb and pure-Python backends)", "intervaltree", "sortedcontainers", "networkx"],
         "stub": ["uuid4 (seeded)", "SetWrapper iteration order (seeded permutation)", "open()/file streams (SimDisk)"],
@@ -310,3 +310,144 @@ def inv_c03_c04_as(w, prop):
         raise Violation(prop, "after_failure:" + v.check, v.detail)
     finally:
         w.prop = saved
+
+
+# ---------------------------------------------------------------------------
+# index profiles: an edit task and a lookup task on one world
+
+from . import gen_index  # noqa: E402
+
+INDEX_BASE = {
+    "new": 4.0,
+    "setparent": 3.0,
+    "setop": 3.0,
+    "listop": 0.7,
+    "attr_index": 6.0,
+    "setattr": 0.5,
+    "se": 2.0,
+}
+INDEX_ATTRS = ("offset", "size", "address")
+
+
+class IndexProfile(OwnProfile):
+    name = "index"
+    base = INDEX_BASE
+    lookup_props = ("C05", "C06", "C13")
+    keep = ("new", "attr_index")
+
+    def config(self, r):
+        c = super().config(r)
+        c["steps"] = r.randrange(30, 100)
+        c["weights"] = swarm_weights(r, self.base, keep=self.keep)
+        c["lookup_mode"] = r.choice(["sparse", "dense", "every", "bursts", "bursts"])
+        c["burst_len"] = r.choice([2, 3, 6])
+        c["p_lookup"] = {"sparse": 0.1, "dense": 0.5, "every": 0.5, "bursts": 0.08}[c["lookup_mode"]]
+        c["kind_weights"] = {"ir": 0.4, "mod": 0.6, "sec": 1.0, "bi": 2.0, "cb": 2.5, "db": 2.0, "px": 0.2, "sym": 0.6}
+        c["p_addr_none"] = r.choice([0.1, 0.25])
+        c["p_boundary"] = r.choice([0.0, 0.1, 0.2])
+        c["addr_hi"] = r.choice([12, 40])
+        c["size_hi"] = r.choice([6, 12])
+        c["off_hi"] = r.choice([8, 14])
+        c["allow_shrink"] = True
+        return c
+
+    def begin(self, w):
+        w.burst_left = 0
+        w.phase = 0  # 0: no lookup yet, 1: lookup seen, 2: edit after lookup, 3: lookup after that
+
+    def gen(self, w):
+        r = w.rs.ops
+        rl = w.rs.lookups
+        if len(w.m.nodes) >= 4:
+            do = False
+            if w.burst_left > 0:
+                w.burst_left -= 1
+                do = True
+            elif rl.random() < w.cfg["p_lookup"]:
+                do = True
+                if w.cfg["lookup_mode"] == "bursts":
+                    w.burst_left = w.cfg["burst_len"] - 1
+            if do:
+                for _ in range(4):
+                    op = gen_index.gen_lookup(w, rl, props=self.lookup_props)
+                    if op is not None and self._ready(w, op):
+                        return op
+        return super().gen(w)
+
+    def gen_family(self, w, r, fam):
+        if fam == "attr_index":
+            return gen_own.gen_setattr(w, r, kinds=("bi", "cb", "db"), attrs=INDEX_ATTRS)
+        if fam == "se":
+            return gen_index.gen_se(w, r)
+        if fam == "se_pure":
+            return gen_index.gen_se(w, r, pure=True)
+        return super().gen_family(w, r, fam)
+
+    def after(self, w, op, out):
+        if op["op"] == "lookup":
+            if out is not None:
+                if w.phase == 0:
+                    w.phase = 1
+                elif w.phase == 2:
+                    w.phase = 3
+        elif out is not None and w.phase == 1 and op["op"] in ("setattr", "setparent", "setop", "new", "se", "listop"):
+            w.phase = 2
+
+    def nontrivial(self, w):
+        return w.phase == 3
+
+    def extra_coverage(self, results, tot):
+        return {
+            "lookups_judged": {k[7:]: v for k, v in tot.items() if k.startswith("lookup:")},
+            "lazy_tree_branches": {k[7:]: v for k, v in tot.items() if k.startswith("branch:")},
+        }
+
+
+@profile
+class C05(IndexProfile):
+    prop = "C05"
+    lookup_props = ("C05",)
+    rule = (
+        "one evaluation = one run of two cooperating tasks on one world: an edit task (block offset/size, interval "
+        "address/size, add/remove/move of blocks, intervals, sections, modules) and a lookup task woken between edits "
+        "by the scheduler (sparse / dense / every step / bursts). Every block lookup at every scope is compared with "
+        "a must/may fresh scan of the live structure. Non-trivial: a lookup was issued after an index-affecting edit "
+        "that followed an earlier lookup; distinct by op-kind sequence hash."
+    )
+
+
+@profile
+class C06(IndexProfile):
+    prop = "C06"
+    lookup_props = ("C06",)
+    base = dict(INDEX_BASE, attr_index=7.0, se=0.3)
+    rule = (
+        "as C05 with byte_intervals_on/at, sections_on/at and Section.address/size as the lookup task; the edit task "
+        "favours interval address (to/from None) and size edits, moves, removal and re-adding. Oracle: scan of the live "
+        "structure and the statement's extent formula. Non-trivial/distinct as C05."
+    )
+
+    def config(self, r):
+        c = super().config(r)
+        c["kind_weights"] = {"ir": 0.4, "mod": 0.8, "sec": 1.5, "bi": 3.0, "cb": 0.6, "db": 0.4, "px": 0.1, "sym": 0.2}
+        c["p_addr_none"] = r.choice([0.15, 0.3])
+        return c
+
+
+@profile
+class C13(IndexProfile):
+    prop = "C13"
+    lookup_props = ("C13",)
+    base = dict(INDEX_BASE, se=7.0, attr_index=3.0)
+    keep = ("new", "se")
+    rule = (
+        "as C05 with symbolic_expressions_at[_offset] as the lookup task and every mutable-mapping operation on "
+        "symbolic_expressions (item set/delete, pop, popitem, setdefault, update, clear, whole-mapping assignment) plus "
+        "interval address changes and moves as the edit task. Interval scope exact and ordered by offset, outer scopes "
+        "must/may. Non-trivial/distinct as C05."
+    )
+
+    def config(self, r):
+        c = super().config(r)
+        c["kind_weights"] = {"ir": 0.4, "mod": 0.6, "sec": 1.0, "bi": 2.5, "cb": 0.3, "db": 0.3, "px": 0.1, "sym": 2.0}
+        return c
